@@ -250,6 +250,9 @@ class OggPage(object):
         and the last page must end the last packet.
         """
 
+        if not pages:
+            return []
+
         serial = pages[0].serial
         sequence = pages[0].sequence
         packets = []
